@@ -459,6 +459,43 @@ SHIPPED = ["huawei_ce", "huawei_ne", "huawei_other", "arista", "nexus_other", "n
            "catalyst_other", "cisco_asr", "cisco_other"]
 
 
+BLOCK_ROWS = {
+    "nexus": (["vrf member A", "vrf member B"], ["ip address 10.0.0.1/24", "ip address 10.0.0.2/24", "description x",
+                                                  "description y", "no ip redirects", "ipv6 address 2001:db8::1/64"]),
+    "catalyst": (["vrf forwarding A", "vrf forwarding B"], ["ip address 10.0.0.1 255.255.255.0", "description x", "description y"]),
+    "cisco": (["vrf forwarding A", "vrf forwarding B"], ["ip address 10.0.0.1 255.255.255.0", "description x", "description y"]),
+    "huawei": (["ip binding vpn-instance A", "ip binding vpn-instance B"], ["ip address 10.0.0.1 24", "description x", "description y"]),
+    "arista": (["vrf A", "vrf B"], ["ip address 10.0.0.1/24", "description x", "description y"]),
+}
+
+
+def with_block_rows(rng, name: str, old: dict, new: dict) -> bool:
+    fam = next((k for k in BLOCK_ROWS if name.startswith(k)), None)
+    if fam is None:
+        return False
+    keyed, plain = BLOCK_ROWS[fam]
+    done = False
+    for row in list(old):
+        if row.startswith("interface ") and row in new and isinstance(old[row], dict) and rng.random() < 0.7:
+            o, n = dict(old[row]), dict(new[row])
+            x = rng.random()
+            if x < 0.45:                         # the keyed row changes its value
+                o[keyed[0]] = {}
+                n[keyed[1]] = {}
+            elif x < 0.6:
+                n[keyed[0]] = {}
+            elif x < 0.75:
+                o[keyed[0]] = {}
+            for r in rng.sample(plain, rng.randint(0, 3)):
+                if rng.random() < 0.6:
+                    o[r] = {}
+                if rng.random() < 0.6:
+                    n[r] = {}
+            old[row], new[row] = o, n
+            done = True
+    return done
+
+
 def pipe_cases(ctx, table: dict, hist: dict):
     rng = ctx.rng("pipe")
     shipped: list[dict] = []
@@ -477,7 +514,14 @@ def pipe_cases(ctx, table: dict, hist: dict):
         for _ in range(per_dev):
             old = gen_tree(rng, rules, rev, others, hist=hist)
             new = mutate_tree(rng, old, rules, rev, others) if rng.random() < 0.8 else gen_tree(rng, rules, rev, others, hist=hist)
-            shipped.append(dict(base, old=old, new=new, src="shipped/random"))
+            src = "shipped/random"
+            if rng.random() < 0.5:
+                # ordinary configuration rows next to the defaults, changing between old and new: the shipped
+                # rulebooks attach vendor diff_logic / logic functions to such blocks (interface vrf / L3 rows, ...)
+                # and a default absent from both sides must still stay out of the patch
+                if with_block_rows(rng, name, old, new):
+                    src = "shipped/random+block-rows"
+            shipped.append(dict(base, old=old, new=new, src=src))
     # the same completion through the real annet.gen._old_new_per_device (device text / one partial generator)
     per_gen = 40 if ctx.thorough else 8
     for name in SHIPPED + ["no_implicit"]:
